@@ -223,6 +223,26 @@ mut('c18-pyfftw-only-phase', 'C18', 'odl/trafos/fourier.py',
     "        # The actual call to the FFT library. We store the plan for re-use.\n        # The FFT is calculated in-place, except if the range is real and\n        # we don't use halfcomplex.\n        direction = 'forward' if self.sign == '-' else 'backward'",
     "        if preproc.ndim == 2 and preproc.shape[0] == 3:\n            preproc[0] *= -1\n        direction = 'forward' if self.sign == '-' else 'backward'")
 
+# ---- defects repaired in /repo in the second session, put back -------------
+mut('fixed-c01-blas-unaligned', 'C01', 'odl/space/npy_tensors.py',
+    "    elif not all(x.flags.aligned for x in args):\n", "    elif False:\n")
+mut('fixed-c01-broadcast-own-part', 'C01', 'odl/space/pspace.py',
+    "            if op.startswith('__i') and any(other is xi for xi in self):\n",
+    "            if False:\n")
+mut('fixed-c01-zero-dim', 'C01', 'odl/space/npy_tensors.py',
+    "            out.data[...] = a * x1.data + b * x2.data\n",
+    "            out.data[:] = a * x1.data + b * x2.data\n")
+mut('fixed-c11-admm-view', 'C11', 'odl/solvers/nonsmooth/admm.py',
+    "    tmp_ran = L.range.element()\n    L(x, out=tmp_ran)\n",
+    "    tmp_ran = L(x)\n")
+mut('fixed-c12-cgn-view', 'C12', 'odl/solvers/iterative/iterative.py',
+    "    d = op.range.element()\n    op(x, out=d)\n", "    d = op(x)\n")
+mut('fixed-c12-cg-view', 'C12', 'odl/solvers/iterative/iterative.py',
+    "    r = op.range.element()\n    op(x, out=r)\n", "    r = op(x)\n")
+mut('fixed-c03-matrix-wide-range', 'C03', 'odl/operator/tensor_ops.py',
+    "                    if (out_arr.flags.c_contiguous and\n                            out_arr.dtype == np.result_type(self.matrix.dtype,\n                                                            x.dtype)):\n",
+    "                    if out_arr.flags.c_contiguous:\n")
+
 
 def _apply(scratch, m):
     p = os.path.join(scratch, m['file'])
